@@ -186,7 +186,8 @@ CHECKS = {
     'C02': dict(obs='ObsC02', ref='4/C02',
                 text='The operational spec USim is deterministic per program (TLC explores it with the client as the only source '
                      'of choice); programs over the whole API (TLC witness programs of 8 USim configurations incl. several '
-                     'comparisons on one tracked value, float-date storms, many waiting borrowers) are executed under 8 '
+                     'comparisons on one tracked value, float-date storms, many waiting borrowers, random pipe scenarios ended by '
+                     'cancel or forced close, random collect/first calls with every consumer behaviour) are executed under 8 '
                      'configurations in separate processes (PYTHONHASHSEED 0/1/random, heap perturbation with unrelated '
                      'allocations and gc on/off, USIM_WAITQUEUE heap/SD, python -O) and TLC validates the side-by-side record of '
                      'each program against ObsC02: all runs agree at every position of the trace.  Kernel level: the scheduling '
